@@ -110,8 +110,28 @@ class Tables:
                         len(n.args) == 3 and U(n.args[0]) == a and \
                         U(n.args[1]) == b:
                     ok = True
-        anch = any(isinstance(n, ast.BinOp) and "'^'" in U(n) and "'$'" in
-                   U(n) for n in walk_no_nested(f.node))
+        # the result is anchored: "^" + expr + "$" in any spelling
+        from . import strabs
+        interp = strabs.Interp(self.ctx, f)
+        anch = False
+        for n in walk_no_nested(f.node):
+            v = None
+            if isinstance(n, ast.Return) and n.value is not None:
+                v = n.value
+            elif isinstance(n, ast.Assign):
+                v = n.value
+            if v is None or not isinstance(v, (ast.BinOp, ast.JoinedStr,
+                                               ast.Call)):
+                continue
+            env = {x.id: strabs.Str((("V", x.id),)) for x in ast.walk(v)
+                   if isinstance(x, ast.Name)}
+            try:
+                sh = interp.eval(v, env)
+            except Exception:
+                continue
+            if isinstance(sh, strabs.Str) and len(sh.toks) >= 3 and \
+                    sh.toks[0] == ("L", "^") and sh.toks[-1] == ("L", "$"):
+                anch = True
         if not (ok and anch):
             raise AnalysisError("%s: substitution loop shape not recognised"
                                 % qual)
